@@ -191,9 +191,10 @@ def main(argv):
       rp = json.load(f)
     todo = [w["case"] for w in rp.get("witnesses", []) if w.get("case") is not None]
   else:
+    sub = int(os.environ.get("VERIF_SUBSAMPLE", "1") or 1)   # debugging aid: run every sub-th case only
     todo = (c for i, c in enumerate(mod.cases(tier, seed, keras3=keras3)
                                     if keras3 else mod.cases(tier, seed))
-            if i % nworkers == widx)
+            if (i // sub) % nworkers == widx and i % sub == 0)
   t_end = time.time() + hard - 20
   for case in todo:
     if time.time() > t_end:
